@@ -71,6 +71,7 @@ void harness (void)
   XV_IN (size_t, bk, nondet_size);
   XV_ASSUME (bk < set_len);
   g_bk = bk;
+  xv_ghost_idx[0] = bk; xv_ghost_idx[1] = (size_t) -1;
 
   /* the data object: arbitrary contents (= any call history), any of the 16
      alignments, output holding the failure token as every caller leaves it */
